@@ -45,6 +45,20 @@ def rel_filters():
         ast.BoolOp(ast.And(), ast.Compare(ast.Eq(), A("o", "name"), sc.S("x")), ast.Compare(ast.Eq(), A("w", "o", "label"), sc.S("y"))),
         ast.BoolOp(ast.And(), ast.Compare(ast.Eq(), A("w", "o", "label"), sc.S("y")), ast.Compare(ast.Eq(), A("o", "label"), sc.S("x"))),
     ]
+    # a sub-term the backend must refuse (unknown field, alone / inside a call / behind a path / in a lambda body) at EVERY operand position of and / or, next to a Boolean
+    # literal or a decided comparison that already settles the connective (`false and X`, `true or X`, either order, nested): an operand that is not needed for the value
+    # is still part of the filter
+    T, F = ast.Boolean("true"), ast.Boolean("false")
+    refusing = [ast.Compare(ast.Eq(), I("zz"), one), sc.call("contains", I("zz"), sc.S("a")), ast.Compare(ast.Eq(), A("o", "zz"), sc.S("x")),
+                ast.CollectionLambda(I("kids"), ast.Any(), ast.Lambda(I("k"), ast.Compare(ast.Eq(), A("k", "zz"), one))), ast.Compare(ast.Eq(), sc.call("length", I("zz")), one)]
+    for X in refusing:
+        for lit in (T, F, ast.Boolean("TRUE"), ast.Boolean("False")):
+            for op in (ast.And, ast.Or):
+                out += [ast.BoolOp(op(), lit, X), ast.BoolOp(op(), X, lit)]
+        out += [ast.BoolOp(ast.Or(), ast.Compare(ast.Eq(), I("a"), one), ast.BoolOp(ast.Or(), T, X)), ast.BoolOp(ast.And(), ast.BoolOp(ast.And(), F, X), ast.Compare(ast.Eq(), I("a"), one)),
+                ast.UnaryOp(ast.Not(), ast.BoolOp(ast.And(), F, X)), ast.Compare(ast.Eq(), ast.BoolOp(ast.Or(), T, X), T), ast.BoolOp(ast.And(), ast.UnaryOp(ast.Not(), T), X),
+                ast.BoolOp(ast.Or(), ast.Compare(ast.Eq(), one, one), X), ast.BoolOp(ast.And(), ast.Compare(ast.Eq(), I("a"), ast.Null()), X),
+                ast.BoolOp(ast.Or(), X, ast.BoolOp(ast.Or(), T, ast.Compare(ast.Eq(), I("a"), one)))]
     return out
 
 # which outcome classes the property admits, per backend
@@ -195,7 +209,15 @@ def run(ctx):
             elif dataclasses.is_dataclass(v) and list_outside_in(v):
                 return True
         return False
-    matrix = [(w, n) for w, n in sc.dedup(sc.node_kind_matrix() + sc.operator_nestings()) if not list_outside_in(n)]
+    # … plus sub-terms a backend refuses (unknown field, unimplemented function, unary minus) at every operand position next to a Boolean literal that settles the connective
+    _I, _S, _call = sc.I, sc.S, sc.call
+    _refusing = [ast.Compare(ast.Eq(), _I("zz"), ast.Integer("1")), _call("contains", _I("zz"), _S("a")), ast.Compare(ast.Lt(), ast.UnaryOp(ast.USub(), _I("i1")), ast.Integer("1")),
+                 ast.Compare(ast.Eq(), _call("totaloffsetminutes", _I("dt1")), ast.Integer("60")), ast.Compare(ast.Eq(), _call("nosuchfn", _I("s1")), ast.Integer("1"))]
+    _decided = [ast.BoolOp(op(), *(pair if k == 0 else pair[::-1])) for X in _refusing for lit in ("true", "false", "TRUE", "False") for op in (ast.And, ast.Or)
+                for pair in [(ast.Boolean(lit), X)] for k in (0, 1)]
+    _decided += [ast.BoolOp(ast.Or(), ast.Compare(ast.Eq(), _I("i1"), ast.Integer("1")), ast.BoolOp(ast.Or(), ast.Boolean("true"), X)) for X in _refusing]
+    _decided += [ast.UnaryOp(ast.Not(), ast.BoolOp(ast.And(), ast.Boolean("false"), X)) for X in _refusing]
+    matrix = [(w, n) for w, n in sc.dedup(sc.node_kind_matrix() + sc.operator_nestings() + _decided) if not list_outside_in(n)]
     COLS = "id,i1,i2,f1,s1,s2,b1,d1,dt1"
     for bname, req, real in (("django", lambda w: driver.req("djbuild", w), lambda n: oc.django_compile(n)[0]),
                              ("sa-orm", lambda w: driver.req("sabuild", "orm", COLS, w), lambda n: oc.sa_compile(n, "orm")[0]),
